@@ -165,13 +165,24 @@ pub fn sha256(data : &[u8]) -> [u8; 32]
    to 43 characters; alphabet 0-9 a-z A-Z.  Written from the format description, by long division. */
 pub fn base62_le(bytes : &[u8; 32]) -> String
 {
-    const ALPHABET : &[u8; 62] = b"0123456789abcdefghijklmnopqrstuvwxyzABCDEFGHIJKLMNOPQRSTUVWXYZ";
+    let mut out = base62_digits(&bytes[..]);
+    while out.len() < 43
+    {
+        out.push(b'0');
+    }
+    String::from_utf8(out).unwrap()
+}
+
+const ALPHABET62 : &[u8; 62] = b"0123456789abcdefghijklmnopqrstuvwxyzABCDEFGHIJKLMNOPQRSTUVWXYZ";
+
+/* base-62 digits (least significant first, no padding) of a little-endian integer of any length */
+pub fn base62_digits(bytes_le : &[u8]) -> Vec<u8>
+{
     // big-endian digit vector of the little-endian number
-    let mut num : Vec<u32> = bytes.iter().rev().map(|b| *b as u32).collect();
+    let mut num : Vec<u32> = bytes_le.iter().rev().map(|b| *b as u32).collect();
     let mut out = Vec::new();
     loop
     {
-        // strip leading zeros
         while num.len() > 0 && num[0] == 0
         {
             num.remove(0);
@@ -188,14 +199,46 @@ pub fn base62_le(bytes : &[u8; 32]) -> String
             quotient.push(cur / 62);
             rem = cur % 62;
         }
-        out.push(ALPHABET[rem as usize]);
+        out.push(ALPHABET62[rem as usize]);
         num = quotient;
     }
-    while out.len() < 43
+    out
+}
+
+/* little-endian bytes of the integer a base-62 name (least significant digit first) denotes */
+pub fn base62_value_le(name : &str) -> Option<Vec<u8>>
+{
+    let mut value : Vec<u8> = vec![];     // little-endian
+    for c in name.bytes().rev()
     {
-        out.push(b'0');
+        let d = ALPHABET62.iter().position(|a| *a == c)? as u32;
+        // value = value * 62 + d
+        let mut carry = d;
+        for b in value.iter_mut()
+        {
+            let cur = (*b as u32) * 62 + carry;
+            *b = (cur & 0xff) as u8;
+            carry = cur >> 8;
+        }
+        while carry > 0
+        {
+            value.push((carry & 0xff) as u8);
+            carry >>= 8;
+        }
     }
-    String::from_utf8(out).unwrap()
+    Some(value)
+}
+
+/* The 43-character name of (value of `name`) + 2^256, when that still fits 43 digits: a string
+   that is NOT a valid encoding (value too large) but differs from a valid one only by 2^256. */
+pub fn alias_beyond_256_bits(name : &str) -> Option<String>
+{
+    let mut v = base62_value_le(name)?;
+    v.resize(33, 0);
+    if v[32] != 0 { return None; }
+    v[32] = 1;
+    let digits = base62_digits(&v);
+    if digits.len() == 43 { String::from_utf8(digits).ok() } else { None }
 }
 
 pub fn cache_name_of(content : &[u8]) -> String
